@@ -37,6 +37,16 @@ CHECKS = {
               "compiled against the real headers: leaf offsets through tainted pointers vs an independently declared fixed-width struct vs the model; raw copy-in image, copy-out, by-value argument seen by the guest, "
               "by-value result, copy-out of a guest-written image, loads through a const view; ABIs A/B/C."),
         note=NOTE + "Not covered: arrays of structs and const-qualified fields (rejected by rlbox's struct support at compile time), bit-fields, unions; float/double fields carry integral values (never converted)."),
+    "C09": dict(
+        engine="snap", design_ref="DESIGN.md §6 C09",
+        technique="Lean 4 theorems over interaction trees of byte reads with an arbitrary adversary rewriting memory before every read (induction on the tree; run/bind lemmas) + refinement check: every machine read of sandbox memory is an interleave point (mprotect + x86 trap flag), outcomes must lie in the model's outcome set over all byte-level schedules",
+        text=("Proof: C09_snapshot (for ANY program over sandbox reads and ANY adversary: the outcome depends only on what the adversary did before the reads actually performed -- nothing written after the last read, "
+              "while the verifier runs or later, can change what it received), C09_snapshot_variants, C09_string (unique_ptr verifier: NUL as last byte of its own buffer, terminated inside, buffer = range-checked extent <= region), "
+              "C09_string_std, C09_range (buffer has exactly count elements; never sized from a second look), C09_ptr (pointer fetched once; null reaches the verifier as nullptr and is never dereferenced; the pointee is read at the fetched address), "
+              "for every adversary, memory and pointer source (application memory / sandbox cell). Tied to the code without a source hook: the region is PROT_NONE while rlbox runs, each machine read faults, the trap flag single-steps it, "
+              "the adversary acts after read k for every k (thorough: every ordered pair of points for every pair of actions), 11 variants x 2 pointer sources x 7 actions; each observed outcome must be in the model's outcome set over all "
+              "byte-level schedules and satisfy the oracle (application memory, unchanged after the region is overwritten, terminator inside a buffer of known size). One genuine defect found and repaired (5202ca0)."),
+        note=NOTE + "Partial: atomicity of one machine read is assumed; the correspondence scenario is fixed (the theorems are not); a null struct pointer dereferenced by copy_and_verify (no window involved) is C03/F7 territory and is not judged here."),
     "C06": dict(
         engine="conv", design_ref="DESIGN.md §6 C06",
         technique="Lean 4 theorem over all integer type pairs and values (case split + omega) + differential execution vs model driver + 128-bit oracle",
@@ -199,7 +209,7 @@ def main():
             "source_commits": [],
             "add_only": True,
         },
-        "engines": [{"name": e, "path": ("gen/typing_table.py + lean/Driver/TypingEng.lean" if e == "typing" else "gen/structs.py + harness/structs_common.hpp + lean/Driver/StructEng.lean" if e == "struct" else f"harness/h_{e}.cpp + lean/Driver"), "serves_properties": sorted(ps),
+        "engines": [{"name": e, "path": ("gen/typing_table.py + lean/Driver/TypingEng.lean" if e == "typing" else "gen/structs.py + harness/structs_common.hpp + lean/Driver/StructEng.lean" if e == "struct" else "harness/h_snap.cpp (mprotect/trap-flag interposer) + lean/Driver/SnapEng.lean" if e == "snap" else f"harness/h_{e}.cpp + lean/Driver"), "serves_properties": sorted(ps),
                      "kind_free_text": "line-protocol differential engine (C++ harness on real headers vs Lean model driver)"} for e, ps in sorted(engines.items())],
         "checks": checks,
         "not_applicable": na,
